@@ -32,8 +32,8 @@ RULE = (
     "programs of 1-3 tasks x 1-4 ops (feed 1-6 distinct bytes / read(n,timeout in None,0,0.5,2) / empty / close / "
     "read_ready / len / sleep) run on the real BufferedPipe under the deterministic scheduler with a generated "
     "preemption list (<=4 preemptions + forced picks, lock-level and optionally line-level switch points) and, in "
-    "thorough, depth-first enumeration of all schedules with <=3 preemptions for every 2-task program with <=2 ops "
-    "each over a 7-op alphabet; non-trivial = >=2 tasks performed pipe operations and a waiting reader was woken "
+    "thorough, depth-first enumeration of all schedules with <=3 preemptions for every 2-task program with <=3 / <=2 ops "
+    "over a 7-op alphabet; non-trivial = >=2 tasks performed pipe operations and a waiting reader was woken "
     "(by feed, close or a fired timeout); distinct by SHA-1 of (program, schedule)"
 )
 
@@ -192,7 +192,7 @@ def judge(res, records, pipe):
                 if op[2] is None:
                     viol.append(("timeout-raised", "untimed-read", where))
                 elif len(buf) > 0:
-                    how = "timeout=0" if op[2] == 0 else ("woken-by-" + _wake_kind(log, rec))
+                    how = "timeout=0" if op[2] == 0 else ("after-wait" if _wake_kind(log, rec) != "none" else "without-waiting")
                     viol.append(("timeout-with-data", how, "%s raised PipeTimeout while %d bytes were buffered" % (where, len(buf))))
                 continue
             d = out[1]
@@ -316,7 +316,7 @@ ALPHABET = [
 ]
 
 
-def _programs(max_ops):
+def _seqs(max_ops):
     seqs = []
 
     def rec(prefix):
@@ -327,9 +327,20 @@ def _programs(max_ops):
                 rec(prefix + [a])
 
     rec([])
+    return seqs
+
+
+def _programs(max_a, max_b):
+    """All 2-task programs {A, B} with len(A) <= max_a, len(B) <= max_b (max_b <= max_a), each
+    unordered pair once."""
+    sa = _seqs(max_a)
+    sb = _seqs(max_b)
+    index = {repr(x): i for i, x in enumerate(sa)}
     progs = []
-    for i, a in enumerate(seqs):
-        for b in seqs[i:]:
+    for i, a in enumerate(sa):
+        for b in sb:
+            if len(a) <= max_b and index[repr(b)] < i:
+                continue  # the mirrored pair is enumerated elsewhere
             progs.append([a, b])
     return progs
 
@@ -370,16 +381,20 @@ def run_dfs(ctx, programs, k, limit_per_program, count_schedules):
 def run(ctx):
     ctx.set_budget(60, 840)
     ctx.assume("virtual clock: time advances only when the scheduler fires the earliest pending timeout; a notified waiter may be delayed arbitrarily before re-acquiring the lock")
-    ctx.explore(case_st, lambda c: execute(ctx, c), ctx.scale(3500, 40000))
+    ctx.explore(case_st, lambda c: execute(ctx, c), ctx.scale(6000, 40000))
     if ctx.tier == "thorough":
-        progs = _programs(2)
+        progs = _programs(3, 2)
         mine = progs[ctx.worker :: ctx.nworkers]
         ok = run_dfs(ctx, mine, 3, 200000, "dfs-schedules-k3")
         ctx.exhaustive = bool(ok)
-        ctx.note("dfs_domain", "all %d unordered 2-task programs with <=2 ops each over %d-op alphabet, <=3 preemptions, lock-level switch points" % (len(progs), len(ALPHABET)))
+        ctx.note(
+            "dfs_domain",
+            "all %d unordered 2-task programs with <=3 and <=2 ops over the %d-op alphabet, every schedule with <=3 preemptions, lock-level switch points"
+            % (len(progs), len(ALPHABET)),
+        )
     else:
         # a small slice of the enumeration so that the DFS path is exercised in quick too
-        progs = _programs(2)
+        progs = _programs(2, 2)
         step = max(1, len(progs) // 12)
         run_dfs(ctx, progs[(ctx.seed % step) :: step][:12], 2, 400, "dfs-schedules-k2")
 
